@@ -87,8 +87,11 @@ def run_case(case):
             fb = ([dict(s) for s in fbs], [vertex_set_states(sd, ni, v) for v in fbsets])
         res.append((q, i, obs, seeds, [vertex_set_states(sd, ni, v) for v in sets], fb, mode))
         orc.own(q, obs["space"], obs["succ"])
+        if fb is not None and not obs["skipped"]:
+            # the region the fallback searches, by the specifications of its parts (Lean: fallbackAttrs, fallback_eq_own)
+            orc.ask(("fb", q), "FALLBACK " + ni.sp(obs["space"]) + "".join(" " + ni.sp(x) for x in obs["succ"]))
     orc.run()
-    fails, nontriv, tags = [], False, set()
+    fails, nontriv, tags, diffs = [], False, set(), []
     for q, i, obs, seeds, sets, fb, mode in res:
         tags.add("mode:" + mode)
         if len(seeds) != len(sets):
@@ -119,8 +122,14 @@ def run_case(case):
                     fidx.append(a)
                     if not orc.inside(orc.atts[a], ni.sp(obs["space"])):
                         fails.append({"kind": "fallback-outside-node", "sig": {}, "detail": f"node {i}: attractor {a}"})
+            if not obs["skipped"]:
+                model = orc.get(("fb", q))
+                impl = " / ".join(sorted(",".join(x) for x in fsets))
+                if model != impl:
+                    diffs.append({"stream": "FALLBACK attractors of symbolic_attractor_fallback vs Lean Impl.fallbackAttrs",
+                                  "at": f"node {i} ({ni.sp(obs['space'])})", "impl": impl[:300], "model": model[:300]})
             if not obs["skipped"] and sorted(fidx) != sorted(idx):
                 fails.append({"kind": "fallback-differs-from-default", "sig": {}, "detail":
                               f"node {i} ({ni.sp(obs['space'])}, expanded={obs['expanded']}): default attractors {sorted(idx)}, fallback {sorted(fidx)}"})
             tags.add("fallback")
-    return {"fails": fails, "diffs": [], "tags": sorted(tags), "nontrivial": nontriv, "sig": common.case_hash(case)}
+    return {"fails": fails, "diffs": diffs, "tags": sorted(tags), "nontrivial": nontriv, "sig": common.case_hash(case)}
